@@ -54,3 +54,19 @@ Definition pool_ok (t: tree) (p: pool) : bool :=
   && N.eqb (N.of_nat (length all) + 1) (blen p)
   && N.leb (N.of_nat (length (unused p))) (ucap p).
 End Chk.
+
+(** ** Segment tree: the places of one insert tile its bucket range (C15) *)
+Local Open Scope N_scope.
+(* a place and its ancestors in the implicit heap: parent (i) = (i - 1) / 2 *)
+Fixpoint ancestors (fuel: nat) (i: N) : list N :=
+  i :: match fuel with
+       | O => []
+       | S f => if N.eqb i 0 then [] else ancestors f ((i - 1) / 2)
+       end.
+(* how many of the places [ps] lie on the path from bucket x (heap index x + 31) to the root *)
+Definition covers (ps: list N) (x: N) : nat :=
+  length (filter (fun p => existsb (N.eqb p) (ancestors 6 (x + 31))) ps).
+Definition tiles_ok (ps: list N) (a b: N) : bool :=
+  forallb (fun x => Nat.eqb (covers ps x) (if N.leb a x && N.leb x b then 1%nat else 0%nat))
+          (map N.of_nat (seq 0 32))
+  && Nat.leb (length ps) 8.
